@@ -510,6 +510,9 @@ int
 remote_dep_dequeue_send(parsec_execution_stream_t* es, int rank,
                         parsec_remote_deps_t* deps)
 {
+#if defined(ICLDISCO_PARSEC_VERIF)
+    if( PARSEC_VERIF_EVENT(PARSEC_VERIF_EV_REMOTE_DEP_SEND, (void*)(intptr_t)rank, deps) ) return 1;
+#endif
     dep_cmd_item_t* item = (dep_cmd_item_t*) calloc(1, sizeof(dep_cmd_item_t));
     PARSEC_OBJ_CONSTRUCT(item, parsec_list_item_t);
     item->action   = DEP_ACTIVATE;
